@@ -29,8 +29,9 @@ ENTRY = {
         "text": "Lean theorems over the executable model of arrow_ffi (arrays = windows at any offset into validity+value buffers): "
                 "decode(encode_optimal a) is logically a for every array of every type and never errors; filter/compare/add/multiply/sum/count loops equal the "
                 "elementwise Arrow semantics for every length, offset and buffer content (model with all deviation switches off). Tied to the code by "
-                "correspondence on generated arrays, with the real Arrow kernels run on the same inputs as the oracle. The unchanged tree violates the property "
-                "in eight listed ways (known findings C37-F1..F8, each a model switch with a kernel-checked negation witness and a replayed witness case).",
+                "correspondence on generated arrays, with the real Arrow kernels run on the same inputs as the oracle. The tree as first received violated the property "
+                "in eight ways (findings C37-F1..F8: each a model switch with a kernel-checked negation witness); all eight were repaired in /repo by fix: commits "
+                "c8c2c98..bfe7617 and their witnesses are replayed from corpus/C37 on every run.",
         "design_ref": "DESIGN.md §6 C37",
         "level_note": "Trusted: Lean kernel; axioms propext/Classical.choice/Quot.sound; the hand-written model of the Rust loops and of Arrow's accessors "
                       "(validated by the correspondence runs only); Arrow kernels as reference; harness generators. Float arithmetic is not modelled "
